@@ -970,6 +970,11 @@ def driveDeque (st : Deque.St) (ws : List String) : Deque.St × String :=
                        match t1.out.head? with | some (some x) => s!"r {x.id}" | _ => "r none"
                      else "-"
             (st', s!"{showEv e} | {t1.ops.length} | {r}")
+  | ["dump"] =>
+      -- white-box content of the array between `head` and `tail` (compared with task_pool_ptr[head..tail) of the real slot)
+      let w := (st.pool.drop st.head.toNat).take (st.tail.toNat - st.head.toNat)
+      let cs := w.map (fun c => match c with | .junk => "?" | .hole => "_" | .item x => toString x.id)
+      (st, s!"{st.head} {st.tail} {" ".intercalate cs}".trimRight)
   | ["state"] =>
       (st, s!"{st.head} {st.tail} {st.lw.enc} {showBool st.bad} {st.pool.length} | {showItems (Deque.resident st)} | {showItems (Deque.returned st)} | {showItems st.spawned} | {showItems st.own.freed}")
   | _ => (st, "bad-op")
